@@ -79,7 +79,7 @@ def newline_rules(ctx: Ctx, rid: str) -> None:
     s = ast.unparse(ti.node)
     ctx.check("lines = newline_re.split(source)[::2]" in s and "source = '\\n'.join(lines)" in s, "tokeniter:join", "lexer:Lexer.tokeniter", "line split / join", "tokeniter must split on newline_re (dropping the separators) and re-join with \\n", ti.loc())
     dels = [n for n in ast.walk(ti.node) if isinstance(n, ast.Delete) and "lines" in ast.unparse(n)]
-    ok = len(dels) == 1 and ast.unparse(dels[0]) == "del lines[-1]" and [(ast.unparse(g), p) for g, p in guards_of(dels[0])] == [("not self.keep_trailing_newline and lines[-1] == ''", True)]
+    ok = len(dels) == 1 and ast.unparse(dels[0]) == "del lines[-1]" and sorted(astq.guard_atoms(ti.node, dels[0])) == [("lines[-1] == ''", True), ("self.keep_trailing_newline", False)]
     ctx.check(ok, "tokeniter:trailing", "lexer:Lexer.tokeniter", "trailing newline removal", "exactly one trailing empty line is removed, and only when keep_trailing_newline is off", ti.loc())
 
 
@@ -145,10 +145,11 @@ def comment_raw_rules(ctx: Ctx, rid: str) -> None:
     ctx.check(ok, "visit_Output:templatedata", "compiler:CodeGenerator.visit_Output", "template data exempt from finalize",
               "template text must be emitted as constant data even when the finalize function needs runtime context: the forced-runtime condition must be `not (finalize.const or isinstance(child, nodes.TemplateData))`; otherwise plain text is passed through environment.finalize", vo.loc())
     oc = repo.func("compiler:CodeGenerator._output_child_to_const")
-    rets = astq.returns(oc.node)
-    td = [r for r in rets if any("isinstance(node, nodes.TemplateData)" in ast.unparse(g) and pol for g, pol in guards_of(r))]
+    rets = astq.returns(oc.nnode)
+    isdata = "isinstance(node, nodes.TemplateData)"
+    td = [r for r in rets if (isdata, True) in astq.guard_atoms(oc.nnode, r)]
     fin = [r for r in rets if "finalize.const(" in ast.unparse(r.value)]
-    ctx.check(len(td) == 1 and ast.unparse(td[0].value) == "str(const)" and bool(fin) and td[0].lineno < fin[0].lineno, "_output_child_to_const:templatedata", "compiler:CodeGenerator._output_child_to_const", "template data bypasses finalize", "TemplateData must be returned as str(const) before finalize.const is applied", oc.loc())
+    ctx.check(len(td) == 1 and ast.unparse(td[0].value) == "str(const)" and bool(fin) and all((isdata, False) in astq.guard_atoms(oc.nnode, r) for r in fin), "_output_child_to_const:templatedata", "compiler:CodeGenerator._output_child_to_const", "template data bypasses finalize", "TemplateData must be returned as str(const) before finalize.const is applied", oc.loc())
 
 
 def _ev(e: ast.expr, val: dict[str, bool]) -> bool | None:
@@ -306,7 +307,12 @@ def lstrip_rules(ctx: Ctx, rid: str) -> None:
     init = [n for n in ast.walk(ti.node) if isinstance(n, ast.Assign) and ast.unparse(n.targets[0]) == "line_starting" and ast.unparse(n.value) == "True"]
     ctx.check(len(init) == 1, "line_starting:init", "lexer:Lexer.tokeniter", "initial value", "line_starting must start as True", ti.loc())
     ss = [n for n in ast.walk(branch) if isinstance(n, ast.Assign) and ast.unparse(n.targets[0]) == "strip_sign"]
-    ctx.check(len(ss) == 1 and ast.unparse(ss[0].value) == "next((g for g in groups[2::2] if g is not None))", "strip_sign:groups", "lexer:Lexer.tokeniter", "sign group selection", "the sign must be the first non-None group among groups[2::2]", ti.loc())
+    sg_ok = False
+    if len(ss) == 1 and isinstance(ss[0].value, ast.Call) and astq.callee(ss[0].value) == "next" and len(ss[0].value.args) == 1 and isinstance(ss[0].value.args[0], ast.GeneratorExp):
+        ge_ = ss[0].value.args[0]
+        gv = ast.unparse(ge_.generators[0].target)
+        sg_ok = len(ge_.generators) == 1 and ast.unparse(ge_.generators[0].iter) == "groups[2::2]" and ast.unparse(ge_.elt) == gv and [ast.unparse(i_) for i_ in ge_.generators[0].ifs] == [f"{gv} is not None"]
+    ctx.check(sg_ok, "strip_sign:groups", "lexer:Lexer.tokeniter", "sign group selection", "the sign must be the first non-None group among groups[2::2]", ti.loc())
 
 
 def token_line_rules(ctx: Ctx, rid: str) -> None:
@@ -376,6 +382,7 @@ def token_line_rules(ctx: Ctx, rid: str) -> None:
     ctx.check("lineno = 1" in s and "pos = 0" in s, "lineno:init", "lexer:Lexer.tokeniter", "initial position", "tokeniter must start at position 0, line 1", ti.loc())
     lx = ctx.repo.func("environment:Environment.lex")
     s = ast.unparse(lx.node)
+    s = lx.ntext  # `try: t = f() except: <leaves> else: return t` is `try: return f() ...` in normal form
     ctx.check("return self.lexer.tokeniter(source, name, filename)" in s and "source = str(source)" in s, "Environment.lex", "environment:Environment.lex", "raw stream", "Environment.lex must return the unfiltered tokeniter stream of str(source)", lx.loc())
     be = ctx.repo.func("ext:babel_extract")
     ctx.check("list(environment.lex(environment.preprocess(source)))" in ast.unparse(be.node), "babel_extract:lex", "ext:babel_extract", "comment finder input", "babel_extract must search comments in environment.lex(environment.preprocess(source))", be.loc())
